@@ -7,7 +7,7 @@
 (* evaluated non-halting: each failure adds a record to viol, so one run   *)
 (* reports every violation of every property in every concatenated trace.  *)
 (***************************************************************************)
-EXTENDS ResObserver, CacheTrace, SubQueueTrace, Json, SequencesExt
+EXTENDS ResObserver, CacheTrace, SubQueueTrace, ResQueueTrace, Json, SequencesExt
 
 Trace == ndJsonDeserialize("trace.ndjson")
 
@@ -27,7 +27,7 @@ NewClient(lg, v111, http) ==
 InitO(tr) ==
     [tr |-> tr, conns |-> <<>>, ann |-> <<>>, norm |-> <<>>, keyn |-> <<>>,
      mqsubs |-> {}, mqpend |-> <<>>, handed |-> <<>>, window |-> {},
-     refetch |-> <<>>, ctrig |-> <<>>, resets |-> <<>>, thr |-> <<>>, stop |-> [l |-> 0, cause |-> "", open |-> {}], down |-> FALSE, hadStop |-> FALSE, final |-> FALSE, resetObl |-> {}, keyq |-> <<>>, qev |-> <<>>, ce |-> <<>>, sq |-> <<>>]
+     refetch |-> <<>>, ctrig |-> <<>>, resets |-> <<>>, thr |-> <<>>, stop |-> [l |-> 0, cause |-> "", open |-> {}], down |-> FALSE, hadStop |-> FALSE, final |-> FALSE, resetObl |-> {}, keyq |-> <<>>, qev |-> <<>>, ce |-> <<>>, sq |-> <<>>, rq |-> <<>>]
 
 Short(s) == IF Len(s) > 48 THEN SubSeq(s, 1, 24) \o "...(" \o ToString(Len(s)) \o " characters)" ELSE s
 
@@ -392,6 +392,10 @@ H_note0(r) ==
             \* C09: the cache entry follows CacheEntry.tla in every critical section
             LET st == CEStep(Get(o.ce, r.n, CENew), r)
             IN Res([o EXCEPT !.ce = Put(@, r.n, st.x)], {V("C09", "cache entry " \o Short(r.n) \o ": " \o m, "") : m \in st.errs})
+      [] r.kind \in RQNotes /\ ~o.hadStop /\ o.stop.l = 0 ->
+            \* C13 / C15: the resource's work queue and its query-event lock follow ResQueue.tla
+            LET st == RQStep(Get(o.rq, r.n, RQNew), r)
+            IN Res([o EXCEPT !.rq = Put(@, r.n, st.x)], {V(e.p, "work queue of " \o Short(r.n) \o ": " \o e.m, "") : e \in st.errs})
       [] OTHER -> Res(o, {})
 
 (* C03 / C06: every step of a subscription's event queue follows SubQueueOps *)
@@ -508,10 +512,14 @@ H_mres(r) ==
                                 !.norm = Put(o.norm, r.key, r.nkey),
                                 !.keyn = Put(o.keyn, r.nkey, r.n),
                                 !.keyq = Put(o.keyq, r.nkey, r.nq),
-                                !.window = IF req.refetch THEN @ \ {r.nkey} ELSE @], {})
+                                !.window = IF req.refetch THEN @ \ {r.nkey} ELSE @,
+                                \* an initial load answered after a query event arrived: the query was not (continuously) cached for it
+                                !.qev = IF req.refetch THEN @ ELSE [sj \in DOMAIN o.qev |-> [o.qev[sj] EXCEPT !.must = @ \ {r.nkey, r.key}]]], {})
          [] r.t = "query" ->
               Res([o1 EXCEPT !.ann = Put(o.ann, r.key, AnnQuery(AnnOf(o.ann, r.key), r)),
-                             !.qev = [sj \in DOMAIN o.qev |-> [o.qev[sj] EXCEPT !.open = @ \ {r.k}]]], {})
+                             \* a query whose resource this answer deletes is no longer cached for the query events still waiting
+                             !.qev = [sj \in DOMAIN o.qev |-> [o.qev[sj] EXCEPT !.open = @ \ {r.k},
+                                                                                !.must = IF AnnQuery(AnnOf(o.ann, r.key), r).st = "del" THEN @ \ {r.key} ELSE @]]], {})
          [] r.t = "access" /\ r.c \in DOMAIN o.conns ->
               LET cl == o.conns[r.c]
                   ok == r.kind = "access"
@@ -666,6 +674,7 @@ H_quiescent(r) ==
            UNION {C01Viol(c, r) \cup C07Viol(c) \cup C08Viol(c, r) \cup C03EndViol(c) \cup C06EndViol(c, r) \cup C06TokViol(c, r) : c \in live}
            \cup C09QViol(r) \cup C11Viol(r) \cup C19QViol
            \cup (IF o.hadStop THEN {} ELSE UNION {{V(e.p, "subscription " \o Short(o.sq[sp].rid) \o " of " \o o.sq[sp].c \o ": " \o e.m, "") : e \in SQTQuiescent(o.sq[sp].x)} : sp \in DOMAIN o.sq})
+           \cup (IF o.hadStop THEN {} ELSE UNION {{V(e.p, "work queue of " \o Short(n) \o ": " \o e.m, "") : e \in RQQuiescent(o.rq[n])} : n \in DOMAIN o.rq})
            \cup (IF o.hadStop THEN {} ELSE UNION {{V("C09", "cache entry " \o Short(n) \o ": " \o m, "") : m \in CEQuiescent(o.ce[n])} : n \in DOMAIN o.ce})
            \cup UNION {{V("C13", "no query request for cached query " \o k \o " on query event " \o sj, "")
                         : k \in {x \in o.qev[sj].must \ o.qev[sj].got : QSubscribed(x) /\ AnnOf(o.ann, x).st = "ld"}} : sj \in DOMAIN o.qev}
